@@ -514,13 +514,7 @@ func TestVerifC29_Fragment(t *testing.T) {
 		done := make(chan struct{})
 		go func() { wg.Wait(); close(done) }()
 		close(start)
-		select {
-		case <-done:
-		case <-time.After(180 * time.Second):
-			buf := make([]byte, 1<<20)
-			buf = buf[:runtime.Stack(buf, true)]
-			vc29Die("clients did not finish within 180s (deadlock?)\n%s", buf)
-		}
+		vc29Await(done, &clock, 180*time.Second, "TestVerifC29_Fragment", key.String())
 		for c, err := range errs {
 			if err != nil {
 				t.Fatalf("C29 violated: client %d: a valid operation on the %s fragment failed: %v", c, ftype, err)
@@ -586,4 +580,95 @@ func TestVerifC29_Fragment(t *testing.T) {
 		cs.NT(nontrivial)
 		cs.Sample(map[string]interface{}{"clients": nClients, "gomaxprocs": procs, "maxOpN": maxOpN, "fragments": nFrags, "ops_client0": len(plans[0])})
 	})
+}
+
+// vc29Await waits for the clients. A workload that does not finish is a
+// violation only when the hang is provably permanent: on two looks two seconds
+// apart no call completed (the stamp counter did not move), every goroutine
+// that is inside pilosa code is parked in the same place on a channel, a select
+// or a condition variable (none runnable, running, sleeping, in a syscall or
+// waiting for a mutex somebody holds), and at least one of them waits on a
+// sync.Cond: nobody is left who could signal it. Otherwise the run ends
+// inconclusive after limit.
+func vc29Await(done <-chan struct{}, clock *int64, limit time.Duration, test, plan string) {
+	deadline := time.Now().Add(limit)
+	lastSig, lastClock := "", int64(-1)
+	for {
+		select {
+		case <-done:
+			return
+		case <-time.After(2 * time.Second):
+		}
+		buf := make([]byte, 1<<22)
+		buf = buf[:runtime.Stack(buf, true)]
+		sig, stuck := vc29Parked(string(buf))
+		now := atomic.LoadInt64(clock)
+		if stuck && sig == lastSig && now == lastClock {
+			fmt.Printf("--- FAIL: %s\n    C29 violated: deadlock: the workload cannot finish. On two looks 2 s apart no call completed and every goroutine inside pilosa code is parked at the same place on a channel/select/condition variable; the goroutines in sync.Cond.Wait wait for a wake-up nobody is left to send.\nparked goroutines:\n%s\nworkload: %.3000s\nfull dump:\n%.60000s\nFAIL\n", test, sig, plan, buf)
+			vkit.Flush()
+			os.Stdout.Sync()
+			os.Exit(1)
+		}
+		lastSig, lastClock = "", now
+		if stuck {
+			lastSig = sig
+		}
+		if time.Now().After(deadline) {
+			vc29Die("clients did not finish within %v and the hang is not provably permanent\n%.60000s", limit, buf)
+		}
+	}
+}
+
+// vc29Parked summarises a goroutine dump: the signature lists every goroutine
+// that has a pilosa (non-harness) frame with its wait state and innermost
+// pilosa frame; stuck reports that all of them are parked for good as far as
+// goroutine states can tell and at least one is in sync.Cond.Wait.
+func vc29Parked(dump string) (sig string, stuck bool) {
+	var lines []string
+	condWaiters := 0
+	stuck = true
+	for _, g := range strings.Split(dump, "\n\n") {
+		g = strings.TrimSpace(g)
+		if !strings.HasPrefix(g, "goroutine ") || strings.Contains(g, "vc29Await") {
+			continue
+		}
+		hdr := g
+		if i := strings.IndexByte(g, '\n'); i >= 0 {
+			hdr = g[:i]
+		}
+		frame := ""
+		for _, l := range strings.Split(g, "\n")[1:] {
+			if strings.HasPrefix(l, "github.com/pilosa/pilosa.") && !strings.Contains(l, "vc29") && !strings.Contains(l, "TestVerif") && !strings.Contains(l, "vgc") {
+				frame = l
+				break
+			}
+			if strings.HasPrefix(l, "created by") {
+				break
+			}
+		}
+		if frame == "" {
+			continue
+		}
+		state := hdr
+		if i := strings.IndexByte(hdr, '['); i >= 0 {
+			state = strings.TrimSuffix(hdr[i+1:], "]:")
+		}
+		if i := strings.IndexByte(state, ','); i >= 0 {
+			state = state[:i]
+		}
+		switch state {
+		case "chan receive", "select", "chan send", "semacquire", "chan receive (nil chan)", "select (no cases)":
+		case "sync.Cond.Wait":
+			condWaiters++
+		default:
+			stuck = false
+		}
+		if i := strings.IndexByte(frame, '('); i >= 0 {
+			frame = frame[:strings.LastIndexByte(frame, '(')]
+		}
+		id := strings.Fields(hdr)[1]
+		lines = append(lines, fmt.Sprintf("  goroutine %s [%s] in %s", id, state, frame))
+	}
+	sort.Strings(lines)
+	return strings.Join(lines, "\n"), stuck && condWaiters > 0
 }
